@@ -60,7 +60,8 @@ def entry_configs(cls: str) -> list:
     for pi in (0, 3):
         for fs in (1, 250):
             for w in DR.G_WRITERS:
-                if cls == "graph" and w in ("flat_to_frames", "flat_to_file", "grouped_to_file"):
+                if cls == "graph" and w in ("flat_to_frames", "flat_to_file", "grouped_to_file",
+                                           "flat_to_frames_iter"):
                     continue  # these entry points choose the stream class themselves
                 out.append((pi, fs, w))
     if cls != "graph":
